@@ -425,9 +425,6 @@ def scenario(ctx, client="binance", steps1=2, steps2=1):
                 ctx.cover("a keep-alive was due")
                 ctx.prove(len(kas) >= due, "C18 a subscribed user-data listen key is refreshed at least once per "
                                            "keep-alive period", info=(len(kas), T))
-    for lab in META["required_covers"]:
-        if client != "binance" and lab in ("a listen key expired on a live connection", "a keep-alive was due"):
-            ctx.cover(lab)
 
 
 def jobs(tier):
